@@ -27,7 +27,9 @@ import json
 import os
 import random
 import re
+import sys
 import threading
+import time
 
 from vlib import SPEC, Undecided
 from tlagen import gen_mc, Raw
@@ -36,6 +38,14 @@ A, NL, C3, A9, E2, X82, AC, FF = 97, 10, 0xC3, 0xA9, 0xE2, 0x82, 0xAC, 0xFF
 
 DEC_QUICK = [0, 0x7F, 0x80, 0x8F, 0x90, 0x9F, 0xA0, 0xBF, 0xC1, 0xC2, 0xDF, 0xE0, 0xED, 0xEF, 0xF0, 0xF4, 0xF5]
 DEC_FULL = sorted(set(DEC_QUICK + [0xC0, 0xE1, 0xEC, 0xEE, 0xF1, 0xF3, 0xFF, 0x41, 0xA9]))
+
+
+_T0 = time.time()
+
+
+def lap(what):
+    if os.environ.get("VERIF_C19_TIMING"):
+        sys.stderr.write("[c19 %6.1fs] %s\n" % (time.time() - _T0, what))
 
 
 def rune_space(quick):
@@ -73,14 +83,19 @@ def configs(quick):
             ("big", big, False, True)]
 
 
-def impl_config(quick):
-    """Constants of BufferImpl (the storage algorithm run in lock-step with the abstract model)."""
+def impl_config(quick, which="own"):
+    """Constants of BufferImpl (the storage algorithm run in lock-step with the abstract model).
+    "own": with the caller's kept slices (regions of the storage / private copies) and stores;
+    "large" (thorough tier): the bigger capacity space without them, as they multiply the states."""
     c = dict(Payloads=[[], [A], [C3, A9]], Inits={(), (A,), (C3, A9)}, RuneSpace=set(), DecBytes=set(),
-             SmallBuf=2, MinReadC=2, Retain={"Bytes", "Next", "ReadBytes"}, PokeVals={A9}, Hold=1 if quick else 2)
-    if quick:
+             SmallBuf=2, MinReadC=2, Retain={"Bytes", "Next", "ReadBytes"}, PokeVals={A9}, Hold=1)
+    if which == "large":
+        c.update(ByteArgs={A, C3}, Runes={0xE9, -1}, Counts=Raw("-1..3"), GrowCounts=Raw("-1..4"), MaxLen=3, MaxCap=8,
+                 Retain=set(), PokeVals=set(), Hold=0)
+    elif quick:
         c.update(ByteArgs={A}, Runes={0xE9}, Counts=Raw("-1..2"), GrowCounts=Raw("-1..3"), MaxLen=2, MaxCap=6)
     else:
-        c.update(ByteArgs={A, C3}, Runes={0xE9, -1}, Counts=Raw("-1..3"), GrowCounts=Raw("-1..4"), MaxLen=3, MaxCap=8)
+        c.update(ByteArgs={A}, Runes={0xE9}, Counts=Raw("-1..2"), GrowCounts=Raw("-1..3"), MaxLen=2, MaxCap=7, Hold=2)
     return c
 
 
@@ -94,10 +109,14 @@ def impl_files(consts):
 
 
 def refinement(ctx, quick):
-    """TLC: bytes.Buffer's storage algorithm (BufferImpl) refines the capacity-free model.  Returns
-    (result, witness_ok): the witness run breaks the abstract Grow on purpose and must be rejected."""
-    mci, cfg = impl_files(impl_config(quick))
-    r = ctx.tlc("MCI", "MCI.cfg", files={"MCI.tla": mci, "MCI.cfg": cfg}, name="buffer-impl", workers=6, timeout=2400)
+    """TLC: bytes.Buffer's storage algorithm (BufferImpl) refines the capacity-free model, the
+    ownership contract included (HRel).  Two witness runs break the abstract model on purpose (Grow
+    ignoring the capacity; Bytes() not aliasing the storage) and must be rejected."""
+    runs = []
+    for which in (["own"] if quick else ["own", "large"]):
+        mci, cfg = impl_files(impl_config(quick, which))
+        runs.append(ctx.tlc("MCI", "MCI.cfg", files={"MCI.tla": mci, "MCI.cfg": cfg}, name="buffer-impl-" + which,
+                            workers=4 if quick else 6, timeout=2400))
     with open(os.path.join(SPEC, "Buffer.tla")) as fh:
         spec = fh.read()
     broken = spec.replace("ELSE IF k <= avail THEN Ok(s) ", "ELSE IF TRUE THEN Ok(s) ")
@@ -108,7 +127,16 @@ def refinement(ctx, quick):
                 workers=2, timeout=600, allow_fail=True)
     if not (set(w.invariant_violated) & {"Rel", "Agree"}):
         raise Undecided("vacuity: a model whose Grow ignores the capacity still passes the refinement check:\n" + w.out[-2000:])
-    return r
+    # second witness: a model in which Bytes() hands out a copy (a store through it does not reach the buffer)
+    broken = spec.replace("CASE h.tag = \"bytes\" -> [s EXCEPT !.data[j] = v]", "CASE h.tag = \"bytes\" -> s")
+    if broken == spec:
+        raise Undecided("witness mutation (ownership) of Buffer.tla did not apply")
+    w = ctx.tlc("MCI", "MCI.cfg", files={"MCI.tla": wm, "MCI.cfg": wcfg, "Buffer.tla": broken}, name="buffer-impl-witness-alias",
+                workers=2, timeout=600, allow_fail=True)
+    if not (set(w.invariant_violated) & {"Rel", "HRel", "AliasCoherent"}):
+        raise Undecided("vacuity: a model whose Bytes() does not alias the storage still passes the refinement check:\n"
+                        + w.out[-2000:])
+    return runs
 
 
 INVARIANTS = "TypeOK PrevShape RuneAgain UnreadLaws Conservation DelimLaw EofLaw ResetLaw HeldOK AliasCoherent OwnLaw"
@@ -149,8 +177,10 @@ def parse_graph(path):
                 continue
             m = _node.match(line)
             if m:
-                d, lr, prev, nheld = m.group(2).split("|")
-                nodes[m.group(1)] = dict(data=_seq(d), lr=int(lr), prev=_seq(prev), held=int(nheld))
+                d, lr, prev, tags, lens = m.group(2).split("|")
+                tags = _seq(tags)          # 1 own, 2 str, 3 bytes (alias), 4 next (alias)
+                nodes[m.group(1)] = dict(data=_seq(d), lr=int(lr), prev=_seq(prev), held=len(tags), tags=tags,
+                                         lens=_seq(lens))
     if not nodes or not edges:
         raise Undecided("empty state graph dump")
     return nodes, edges
@@ -206,11 +236,33 @@ def probes_for(state, delim):
     return [["UnreadByte"], ["ReadBytes(%d)" % delim, "UnreadByte"]]
 
 
-def cover(nodes, edges, max_len, delim):
-    """Walks that together execute, for every transition s -a-> s2 of the graph, the call a in
-    state s followed by each identification probe of s2 (so that not only the visible result
-    of a but also the hidden part of the state it leads to is compared).  A walk may start in any
-    state a constructor can produce (lr = 0, nothing in front of the read point): New(data)."""
+OBSERVERS = ("Len_", "Bytes_", "String_")
+
+
+def edge_class(nodes, edge, owned):
+    """The state of the exhaustive model is (buffer state) x (what the caller keeps).  What a CALL
+    does to the buffer does not depend on the second component, so transitions are covered per
+    class: (buffer state, call) - with owned=True additionally split by "the caller holds an owned
+    result while the call runs" (it must survive the call).  The caller's own stores (Poke) and the
+    observers (the only calls an alias survives) are covered for every combination of kept slices."""
+    s, lbl, _ = edge
+    v = nodes[s]
+    name = lbl.split("(")[0]
+    if name == "Poke" or (name in OBSERVERS and any(t in (3, 4) for t in v["tags"])):
+        pool = (tuple(v["tags"]), tuple(v["lens"]))
+    elif owned:
+        pool = any(t in (1, 2) for t in v["tags"])
+    else:
+        pool = None
+    return (tuple(v["data"]), v["lr"], tuple(v["prev"]), lbl, pool)
+
+
+def cover(nodes, edges, max_len, delim, owned):
+    """Walks that together execute, for every class of transitions s -a-> s2 of the graph (see
+    edge_class), the call a in state s followed by each identification probe of s2 (so that not
+    only the visible result of a but also the hidden part of the state it leads to is compared).
+    A walk may start in any state a constructor can produce (lr = 0, nothing in front of the read
+    point, nothing kept yet): New(data).  Returns (walks, number of items, classes, classes covered)."""
     out = collections.defaultdict(list)
     by_label = {}
     for i, (s, lbl, d) in enumerate(edges):
@@ -231,9 +283,16 @@ def cover(nodes, edges, max_len, delim):
         raise Undecided("%d states not reachable from a constructible state" % len(missing))
     # items: (edge, probe) -> list of edge indexes to walk, and the state it ends in
     todo = {n: collections.deque() for n in nodes}
-    n_items = 0
-    for i, (s, lbl, d) in enumerate(edges):
-        for probe in probes_for(nodes[d], delim):
+    cls_id = {}
+    probe_cache = {}
+    wanted = set()                              # (class, probe): one representative each is executed
+    for i, e in enumerate(edges):
+        s, lbl, d = e
+        cid = cls_id.setdefault(edge_class(nodes, e, owned), len(cls_id))
+        pk = (nodes[d]["lr"] != 0, bool(nodes[d]["data"]))
+        if pk not in probe_cache:
+            probe_cache[pk] = probes_for(nodes[d], delim)
+        for pi, probe in enumerate(probe_cache[pk]):
             seq, cur = [i], d
             for pl in probe:
                 ei = by_label.get((cur, pl))
@@ -241,41 +300,61 @@ def cover(nodes, edges, max_len, delim):
                     raise Undecided("probe %s not available in state %s" % (pl, nodes[cur]))
                 seq.append(ei)
                 cur = edges[ei][2]
-            todo[s].append((seq, cur))
-            n_items += 1
+            key = (cid, pi)
+            wanted.add(key)
+            todo[s].append((seq, cur, key))
+    n_items = len(wanted)
+    executed = set()
+
+    def purge(n):
+        q = todo[n]
+        while q and q[0][2] in executed:
+            q.popleft()
+        return bool(q)
+
+    def take(n):
+        """next item of node n that is still needed (None if none)"""
+        q = todo[n]
+        while q:
+            seq, nxt, key = q.popleft()
+            if key in executed:
+                continue
+            executed.add(key)
+            return seq, nxt
+        return None
+
     pending = collections.OrderedDict((n, True) for n in nodes if todo[n])
     behaviours = []
 
     def nearby(cur):
         for ei in out[cur]:
-            if todo[edges[ei][2]]:
+            if purge(edges[ei][2]):
                 return [ei]
         return None
 
     while pending:
         target = next(iter(pending))
+        if not purge(target):
+            pending.pop(target)
+            continue
         start, path = reach[target]
         walk = list(path)
         cur = target
         while len(walk) < max_len:
-            if todo[cur]:
-                for _ in range(min(len(todo[cur]), 6)):     # prefer items ending where work is left
-                    if todo[todo[cur][0][1]]:
-                        break
-                    todo[cur].rotate(-1)
-                seq, nxt = todo[cur].popleft()
-                if not todo[cur]:
-                    pending.pop(cur, None)
+            item = take(cur)
+            if item is not None:
+                seq, nxt = item
                 walk.extend(seq)
                 cur = nxt
                 continue
+            pending.pop(cur, None)
             p = nearby(cur)
             if p is None:
                 break
             walk.extend(p)
             cur = edges[p[-1]][2]
         behaviours.append((start, walk))
-    return behaviours, n_items
+    return behaviours, n_items, len(cls_id), len(set(k for k, _ in executed))
 
 
 def grow_sweep(nodes, edges, delim):
@@ -302,9 +381,14 @@ def grow_sweep(nodes, edges, delim):
                 reach[v] = (reach[u][0], reach[u][1] + [ei])
                 q.append(v)
     res = []
+    seen = set()
     for i, (s, lbl, d) in enumerate(edges):
         if not lbl.startswith("Grow") or s not in reach:
             continue
+        cls = edge_class(nodes, edges[i], False)
+        if cls in seen:
+            continue
+        seen.add(cls)
         start, path = reach[s]
         for probe in probes_for(nodes[d], delim):
             seq, cur = path + [i], d
@@ -431,6 +515,7 @@ def validate(ctx, path, tag, parts):
     return sorted(bad, key=lambda b: b["line"])
 
 
+_len_re = re.compile(r'"len":(\d+)')
 OP_ARG_FIELDS = ("op", "n", "b", "pb", "fin", "pfin", "chunks", "wa", "keep", "h", "j")
 
 
@@ -491,12 +576,37 @@ def diff_field(ev, exp):
     return "collaborator" if ev["op"] in ("ReadFrom", "WriteTo") else "state"
 
 
-def read_rows(path):
-    rows = []
+class Rows:
+    """The lines of an ndjson log, parsed on demand (most of them are never looked at again)."""
+
+    def __init__(self, lines):
+        self.lines = lines
+        self.cache = {}
+
+    def __len__(self):
+        return len(self.lines)
+
+    def __getitem__(self, i):
+        if isinstance(i, slice):
+            return [self[k] for k in range(*i.indices(len(self.lines)))]
+        if i < 0:
+            i += len(self.lines)
+        r = self.cache.get(i)
+        if r is None:
+            r = self.cache[i] = json.loads(self.lines[i])
+        return r
+
+    def is_new(self, i):
+        return self.lines[i].startswith('{"op":"New"')
+
+    def starts(self):
+        return [i for i in range(len(self.lines)) if self.is_new(i)]
+
+
+def read_rows(path, lazy=False):
     with open(path) as fh:
-        for l in fh:
-            rows.append(json.loads(l))
-    return rows
+        lines = fh.readlines()
+    return Rows(lines) if lazy else [json.loads(l) for l in lines]
 
 
 def report(ctx, rows, bad, lock_rows, source_of):
@@ -513,7 +623,7 @@ def report(ctx, rows, bad, lock_rows, source_of):
             upto, source_of(b["line"]), ev["op"], json.dumps(obs)[:900], b["expected"][:900])
         ctx.finding(key, what, dict(kind="buffer", behaviour=beh, observed=ev, expected=b["expected"]))
     # the lock-step cross-check: direct differences between PrintCtx and bytes.Buffer
-    starts = [i for i, r in enumerate(rows) if r["op"] == "New"]
+    starts = rows.starts() if isinstance(rows, Rows) else [i for i, r in enumerate(rows) if r["op"] == "New"]
     first_bad = {}                               # trace number -> first rejected line
     for b in bad:
         t = bisect.bisect_right(starts, b["line"] - 1)
@@ -538,7 +648,9 @@ def run_script(ctx, script, tag, parts):
     with open(sp, "w") as fh:
         json.dump(script, fh)
     prefix = os.path.join(ctx.scratch, tag)
+    lap("script written")
     ctx.run_worker(["buffer", sp, prefix], testing=True, timeout=1800)
+    lap("worker done")
     pc, bb, lock = prefix + ".pc.ndjson", prefix + ".bb.ndjson", prefix + ".lock.ndjson"
     identical = filecmp.cmp(pc, bb, shallow=False)
     # the reference first: the specification must accept bytes.Buffer itself
@@ -548,7 +660,9 @@ def run_script(ctx, script, tag, parts):
         b = bad_bb[0]
         raise Undecided("SPECIFICATION BUG: BufferTrace rejects a trace of bytes.Buffer itself (line %d of %d rejected lines): "
                         "%s ; model expected %s" % (b["line"], len(bad_bb), json.dumps(rows_bb[b["line"] - 1])[:1500], b["expected"][:1500]))
+    lap("bytes.Buffer trace validated")
     bad_pc = [] if identical else validate(ctx, pc, tag + "-pc", parts)
+    lap("PrintCtx trace validated")
     return pc, bad_pc, read_rows(lock), identical
 
 
@@ -568,6 +682,15 @@ def run(ctx, replay):
         return ctx.finish(rule="replay of one recorded behaviour", exhaustive=False)
 
     rng = random.Random(ctx.seed * 104729 + 19)
+    wbox = {}
+
+    def wwork():                                 # build the worker while TLC explores the model
+        try:
+            ctx.worker()
+        except Exception as ex:  # noqa: BLE001 - re-raised after join
+            wbox["ex"] = ex
+    wth = threading.Thread(target=wwork, daemon=True)
+    wth.start()
     # ---- 1. exhaustive model checking (+ dumps)
     behaviours, graph_info, gates = [], [], []
     exhaustive = True
@@ -576,7 +699,9 @@ def run(ctx, replay):
 
     def rwork():
         try:
-            rbox["r"] = refinement(ctx, quick)
+            runs = refinement(ctx, quick)
+            rbox["r"] = collections.namedtuple("R", "distinct generated")(sum(r.distinct for r in runs),
+                                                                          sum(r.generated for r in runs))
         except Exception as ex:  # noqa: BLE001 - re-raised after join
             rbox["ex"] = ex
     rth = threading.Thread(target=rwork, daemon=True)
@@ -604,10 +729,13 @@ def run(ctx, replay):
         if r.distinct < 100:
             raise Undecided("exhaustive run %s explored only %d states" % (name, r.distinct))
         info = dict(config=name, states=r.distinct, generated=r.generated, max_len=consts["MaxLen"], dumped=dump)
+        lap("model checked " + name)
         if dump:
             nodes, edges = parse_graph(dot + ".dot")
+            lap("graph parsed")
             gates = vacuity_gate(nodes, edges)
-            walks, n_items = cover(nodes, edges, max_len=400, delim=min(consts["ByteArgs"]))
+            walks, n_items, n_classes, n_done = cover(nodes, edges, max_len=400, delim=min(consts["ByteArgs"]),
+                                                      owned=not quick)
             covered = set()
             for start, walk in walks:
                 covered.update(walk)
@@ -616,8 +744,13 @@ def run(ctx, replay):
                 how = rng.choice(["bytes", "string", "cap", "cap"] if d else ["zero", "bytes", "string", "cap", "cap"])
                 behaviours.append(dict(new=dict(op="New", how=how, b=d, cap=rng.choice([0, 1, 2, 4, 8, 64, 1024]),
                                                 hold=consts["Hold"]), obs="every", ops=ops))
-            if len(covered) != len(edges):
-                raise Undecided("edge cover incomplete: %d of %d" % (len(covered), len(edges)))
+            if n_done != n_classes:
+                raise Undecided("transition cover incomplete: %d of %d classes" % (n_done, n_classes))
+            store_edges = [i for i, e in enumerate(edges) if e[1].startswith("Poke")]
+            if not store_edges or not set(store_edges) <= covered:
+                raise Undecided("the caller's stores are not all covered: %d of %d" % (
+                    len(set(store_edges) & covered), len(store_edges)))
+            lap("cover computed")
             sweep = grow_sweep(nodes, edges, min(consts["ByteArgs"])) if name in ("tiny", "small") else []
             for start, seq, how, extra in sweep:
                 d = nodes[start]["data"]
@@ -627,8 +760,10 @@ def run(ctx, replay):
                                        ops=[label_to_op(edges[ei][1], consts, rng) for ei in seq]))
             info["grow_sweep_walks"] = len(sweep)
             info.update(graph_states=len(nodes), graph_edges=len(edges), walks=len(walks), transition_probe_items=n_items,
-                        state_changing_edges=sum(1 for s, _, d in edges if s != d))
-            ctx.nontrivial += info["state_changing_edges"]
+                        transition_classes=n_classes, edges_executed=len(covered), store_edges=len(store_edges),
+                        state_changing_edges=sum(1 for s, _, d in edges if s != d),
+                        state_changing_edges_executed=sum(1 for i in covered if edges[i][0] != edges[i][2]))
+            ctx.nontrivial += info["state_changing_edges_executed"]
         graph_info.append(info)
     n_graph = len(behaviours)
     # ---- 2. seeded random drivers
@@ -639,6 +774,10 @@ def run(ctx, replay):
         rnd = [dict(seed=ctx.seed * 1000 + 1, traces=20000, min_len=40, max_len=100, profile="small"),
                dict(seed=ctx.seed * 1000 + 2, traces=4000, min_len=80, max_len=200, profile="big")]
     script = dict(seed=ctx.seed, behaviours=behaviours, random=rnd)
+    wth.join()
+    if "ex" in wbox:
+        raise wbox["ex"] if isinstance(wbox["ex"], Undecided) else Undecided("worker build: %r" % wbox["ex"])
+    lap("script ready")
     # ---- 3./4. execute on PrintCtx and bytes.Buffer, validate with TLC
     pc, bad, lock_rows, identical = run_script(ctx, script, "main", 6 if quick else 14)
     for name, consts, th, box in background:
@@ -649,8 +788,8 @@ def run(ctx, replay):
         ctx.states += r.distinct
         ctx.transitions += r.generated
         graph_info.append(dict(config=name, states=r.distinct, generated=r.generated, max_len=consts["MaxLen"], dumped=False))
-    rows = read_rows(pc)
-    starts = [i for i, r in enumerate(rows) if r["op"] == "New"]
+    rows = read_rows(pc, lazy=True)
+    starts = rows.starts()
 
     def source_of(line):
         k = bisect.bisect_right(starts, line - 1)
@@ -671,7 +810,13 @@ def run(ctx, replay):
                      bytes_buffer_trace="identical to the PrintCtx trace, validated once" if identical
                      else "differs from the PrintCtx trace, both validated",
                      bytes_buffer_events_validated=len(rows), lockstep_mismatches=len(lock_rows),
-                     longest_contents=max((r_.get("len", 0) for r_ in rows), default=0))
+                     longest_contents=max((int(m.group(1)) for l in rows.lines for m in [_len_re.search(l)] if m), default=0),
+                     ownership=dict(
+                         steps_with_kept_slices_compared=sum(1 for l in rows.lines if '"hv":[[' in l),
+                         kept_results=sum(1 for l in rows.lines if '"keep":true' in l),
+                         stores_through_kept_slices=sum(1 for l in rows.lines if l.startswith(('{"op":"Poke"', '{"op":"Fill"'))),
+                         write_arguments_overwritten_after_the_call=sum(1 for l in rows.lines if '"scr":true' in l)))
+    lap("report done")
     if behaviours:
         ctx.sample(dict(graph_walk=dict(new=behaviours[0]["new"], ops=behaviours[0]["ops"][:8])))
     if rand_rows:
